@@ -4,6 +4,8 @@ package checks
 import (
 	"fmt"
 	"math/rand"
+	"os"
+	"path/filepath"
 	"sort"
 	"strings"
 	"time"
@@ -54,12 +56,14 @@ func structuralCorpus(e *core.Env, n int, mod func(i int, o *pgen.StructOpts)) [
 
 // pipeline runs cases through goverter, compiles and executes them.
 type pipeline struct {
+	Coverage  map[string]string
 	Mod       *core.Module
 	Dropped   []string
 	BatchErr  error
 }
 
 type pipeOpts struct {
+	Cover   bool // run the cover-instrumented CLI and report goverter's statement coverage
 	AltBin  map[string]string
 	Race    bool
 	Execute bool
@@ -73,13 +77,21 @@ func runPipeline(e *core.Env, name string, cases []*pgen.Case, race, execute boo
 
 func runPipelineOpts(e *core.Env, name string, cases []*pgen.Case, po pipeOpts) (*pipeline, error) {
 	race, execute := po.Race, po.Execute
-	bin, err := e.BuildCLI("plain")
+	variant := "plain"
+	if po.Cover {
+		variant = "cover"
+	}
+	bin, err := e.BuildCLI(variant)
 	if err != nil {
 		return nil, err
 	}
 	m, err := core.NewModule(e, name)
 	if err != nil {
 		return nil, err
+	}
+	if po.Cover {
+		m.CoverDir = filepath.Join(e.Scratch, "cov-"+name)
+		os.MkdirAll(m.CoverDir, 0o755)
 	}
 	for _, c := range cases {
 		if _, err := m.Add(c); err != nil {
@@ -91,6 +103,9 @@ func runPipelineOpts(e *core.Env, name string, cases []*pgen.Case, po pipeOpts) 
 	p := &pipeline{Mod: m}
 	p.Dropped = m.VetInputs()
 	m.Generate(bin)
+	if po.Cover {
+		p.Coverage = core.CoverPercent(e, m.CoverDir)
+	}
 	m.WriteGlue()
 	m.Build(race)
 	if m.ModuleBuildErr != "" {
